@@ -638,6 +638,8 @@ func checkC09(w *World, tier string) *Report {
 	addRecordedValueFreshRule(w, r, "R10.10")
 	addR105(w, r, "R10.5")
 	addSharedConstRule(w, r, "R16.2")
+	addFreshTracerRule(w, r, "R16.4")
+	r.Explanation += " R16.4 (shared with C16) the recorder the journal instructions write to is the one the EVM was constructed with and is never replaced (a Reset that re-creates it would leave the interpreter journaling into a discarded recorder)."
 	r.Explanation += " R10.9 (shared with C10) every return with a nil error of the eight journal instructions is preceded on every path by the recorder call; R10.10 the value handed to the recorder has no field or captured variable among its may-alias roots (no scratch buffer that a later instruction rewrites); R10.5 (shared) a value is dropped from the per-call list only as an immediate repeat; R16.2 (shared with C16) the package-level 256-bit constants the decoders compute with are never written."
 	return r
 }
@@ -861,6 +863,8 @@ func checkC14(w *World, tier string) *Report {
 	r.need("R14.5", 2)
 	r.need("R14.6", 3)
 	r.Assumptions = append(r.Assumptions, "the Aspect runtime functions (GetAspectContext, JITSenderAspectByContext, SetAspectContext) pass on exactly their arguments (external)")
+	addErrorNotDroppedRule(w, r, "R4.5")
+	r.Explanation += " R4.5 (shared with C04) every error result of a call inside the frame entry points — the error of RunPrecompiledContract in particular — reaches the error the frame returns: a payload the precompile rejects makes the call fail."
 	return r
 }
 
